@@ -211,7 +211,7 @@ class Loader(yaml.SafeLoader):
                 node = self.__savorize(node, recognized_type)
             except SeasoningError as e:
                 raise RecognitionError(
-                        '{}\n{}'.format(node.start_mark, e.args[0]))
+                        '{}\n{}'.format(node.start_mark, e))
         logger.debug('Savorized, now {}'.format(node))
 
         # process subnodes
